@@ -149,6 +149,8 @@ def run_shard(shard, tier, acc):
                         continue     # ']' is an ordinary character at top level and merges with the whitespace
                     for g in (gw if not sp else gw1[:4]):
                         check_suffix(text, doc.ctx, closer, g, exp, acc)
+                # a lone escape character at the very end of the input is an error as well
+                check_suffix(text, doc.ctx, '\\', '', exp, acc)
             acc.sample(dict(doc=doc.text, ctx=doc.ctx))
 
 
